@@ -671,7 +671,8 @@ func main() {
 	theLogger.Flush()
 	cleanup()
 	if *replay == "" && *dur > 0 && !m.Settled {
-		inconclusive("cluster did not settle after the load")
+		// the client histories are still judged; only the final replica reads are missing
+		fmt.Println("NOT-SETTLED: the cluster did not settle after the load (no final replica reads)")
 	}
 	os.Exit(0) // the servers' own Stop sleeps for seconds; the data directories are already gone
 }
